@@ -1,13 +1,14 @@
-import SqlProofs.DelimR.OpenWhere
+import SqlProofs.DelimChild.Reindent.OpenWhere
 /-!
-# SqlProofs.DelimR.Where — `group_where` stays in front of the closer
+# SqlProofs.DelimChild.Reindent.Where — `group_where` stays in front of the closer
 
 A WHERE clause runs to the child before the next clause-ending keyword, or — if there is none — to
 `_groupable_tokens[-1]`: the child before the closer in a Parenthesis/SquareBrackets, the *last* child elsewhere.
 Inside a Case/If/For/Begin this would take the closer; "no open WHERE" excludes it.
 -/
 namespace Sql
-namespace DC
+namespace DCR
+open DC
 
 variable {u : Text → Text}
 
@@ -126,5 +127,5 @@ theorem whereLoop_ops (c : Cls) {S : List Node}
             · exact Or.inl hin
             · exact Or.inr (h3 hin)
 
-end DC
+end DCR
 end Sql
